@@ -51,6 +51,7 @@ type side struct {
 	inbox  [][]byte // wire messages waiting to be delivered to this side
 	log    []rcv    // results of Receive since the last mark
 	secret []byte   // last secret given to Authenticate
+	zero   *int     // > 0: that many of the next 16-byte reads of Rand return zeros (degenerate SMP exponents)
 	// smpStale: this side initiated an SMP run that failed and has neither
 	// started nor been offered another one since (context for violation keys)
 	smpStale bool
@@ -86,9 +87,29 @@ func newBus(m *mon.M, r *rand.Rand, ka, kb int, fa, fb int) *bus {
 	loadOTRKeys()
 	mk := func(name string, k *otr.PrivateKey, fs int, salt uint64) *side {
 		rr := rand.New(rand.NewPCG(r.Uint64(), salt))
-		return &side{name: name, key: k, c: &otr.Conversation{PrivateKey: k, Rand: mon.Reader{R: rr}, FragmentSize: fs}}
+		z := new(int)
+		return &side{name: name, key: k, zero: z, c: &otr.Conversation{PrivateKey: k, Rand: &switchReader{base: mon.Reader{R: rr}, zero: z}, FragmentSize: fs}}
 	}
 	return &bus{m: m, a: mk("A", otrKeys[ka], fa, 1), b: mk("B", otrKeys[kb], fb, 2), stats: map[string]int{}}
+}
+
+// switchReader is the Conversation's entropy source: the seeded PRNG, except
+// that the harness can make the next 16-byte reads (the size of the SMP
+// exponents) return zeros — a peer with degenerate randomness.
+type switchReader struct {
+	base mon.Reader
+	zero *int
+}
+
+func (s *switchReader) Read(p []byte) (int, error) {
+	if len(p) == 16 && *s.zero > 0 {
+		*s.zero--
+		for i := range p {
+			p[i] = 0
+		}
+		return len(p), nil
+	}
+	return s.base.Read(p)
 }
 
 func (b *bus) peer(s *side) *side {
